@@ -189,7 +189,7 @@ def run(ctx):
         vec = fixed[i % len(fixed)] if i < len(fixed) and ctx.shard == 0 else random_vector(rnd, 16)
         layer_bulk(ctx, im, vec, nids if i < 4 else nids // 10)
     # (c) injected
-    nvec = ctx.n(400, 20000)
+    nvec = ctx.n(2500, 150000)
     for i in range(nvec):
         vec = random_vector(rnd)
         layer_injected(ctx, im, vec)
